@@ -212,6 +212,7 @@ def check(run):
     res = common.standard_flow(run, spec, cases)
     check_stopped_before_init(run)
     check_output_after_crashed_run(run)
+    check_empty_put(run)
     for c, o, ch in res:
         for e in o['log']:
             run.count('log_' + e[0] + (('_' + str(e[3])) if e[0] == 'end' else ''))
@@ -277,6 +278,62 @@ def check_stopped_before_init(run, only=None):
                           f"harness: {obs['harness']}", clause='stopped_before_init:' + mode, concrete=True)
 
 
+def check_empty_put(run, only=None):
+    """Events without any data item (a coroutine that takes no arguments, 'put' events sent by
+    blk.event('put')): every accepted put still gets its run and exactly one result."""
+    for mode in ('wait', 'cancel', 'start'):
+        if only is not None and mode != only:
+            continue
+        obs = dict(runs=0, results=[], output=None, error=None, harness=None)
+
+        async def main(loop, mode=mode, obs=obs):
+            edzed.reset_circuit()
+            circuit = edzed.get_circuit()
+
+            class Sink(edzed.SBlock):
+                def init_regular(self):
+                    self.set_output(0)
+
+                def _event(self, etype, data):
+                    obs['results'].append([etype, dict(data.get('put', {'?': 1}))])
+
+            async def coro():
+                obs['runs'] += 1
+                await asyncio.sleep(0.02)
+            sink = Sink('sink')
+            out = edzed.OutputAsync('out', coro=coro, mode=mode, f_args=(), on_success=edzed.Event(sink, 'success'),
+                                    on_error=edzed.Event(sink, 'error'), on_cancel=edzed.Event(sink, 'cancel'),
+                                    stop_timeout=10)
+            task = asyncio.create_task(circuit.run_forever())
+            await circuit.wait_init()
+            for _ in range(3):
+                out.event('put')                 # no data at all
+                await asyncio.sleep(0.1)
+            obs['output'] = out.output
+            obs['error'] = None if circuit.error is None else repr(circuit.error)[:200]
+            try:
+                await circuit.shutdown()
+            except BaseException:                # noqa
+                pass
+        try:
+            vloop.run_virtual(main, wall_limit_s=10.0)
+        except BaseException as err:             # noqa
+            obs['harness'] = repr(err)[:200]
+        finally:
+            edzed.reset_circuit()
+        run.add_case(dict(empty_put=mode), True)
+        run.count('empty_put')
+        ok = (obs['harness'] is None and obs['runs'] == 3 and obs['results'] == [['success', {}]] * 3
+              and obs['output'] == 0 and obs['error'] is None)
+        run.add_obligation(ok)
+        if not ok:
+            run.violation('monitor', dict(case=dict(empty_put=mode), observed=obs),
+                          f"OutputAsync(mode={mode}, f_args=()): three 'put' events without data, 100 ms apart: "
+                          f"{obs['runs']} runs, results {obs['results']}, output {obs['output']!r}, Circuit.error="
+                          f"{obs['error']} (expected 3 runs, 3 x success, output 0); harness: {obs['harness']}",
+                          clause='empty_put:' + mode, concrete=True)
+
+
 def check_output_after_crashed_run(run, only=None):
     """'The block's output always equals the number of active runs and returns to 0 when idle' - also
     when a run ends before the coroutine could be called at all (event data without an item listed
@@ -336,6 +393,8 @@ def replay(run, path):
     _, case = common.load_replay_case(path)
     if isinstance(case, dict) and 'stopped_before_init' in case:
         return common.directed_replay(run, path, lambda: check_stopped_before_init(run, case['stopped_before_init']))
+    if isinstance(case, dict) and 'empty_put' in case:
+        return common.directed_replay(run, path, lambda: check_empty_put(run, case['empty_put']))
     if isinstance(case, dict) and 'crashed_run' in case:
         return common.directed_replay(run, path, lambda: check_output_after_crashed_run(run, case['crashed_run']))
     return common.std_replay(run, C12(), path)
